@@ -79,3 +79,13 @@ check("C14",
       "obligations; np.linalg.norm modelled as sqrt(sum of squares)",
       "symbolic execution of the real Python code with z3 (symx), uninterpreted transcendental kernels, concrete replay",
       "DESIGN.md 4/C14")
+check("C05",
+      "Bounded symbolic execution of Mesh.assemble(skip_edges)/_add_vertices, VertexList.add/find_unique/find_duplicated, "
+      "Operation.get_patches_at_corner, PatchList.slave_patches on 2-4 unit boxes with symbolic per-corner jitter below the "
+      "merge tolerance, solver-chosen insertion order and merge-call order, and scenario tables of patches and merged "
+      "pairs; every tolerance comparison is decided by z3; the resulting vertex indices are compared with a harness-side "
+      "partition by (lattice point, slave patches touching the corner).",
+      "layouts and scenarios as listed in evidence.bounds; jitter <= TOL/8 so that tolerance chains are transitive; the "
+      "side a corner touches is derived geometrically",
+      "symbolic execution of the real Python code with z3 (symx), insertion order as solver variable, concrete replay",
+      "DESIGN.md 4/C05")
